@@ -29,6 +29,7 @@ class Importance(CellModifierInput):
     def __init__(self, input=None, in_cell_block=False, key=None, value=None):
         self._particle_importances = {}
         self._real_tree = {}
+        self._written_tree = {}
         super().__init__(input, in_cell_block, key, value)
         if self.in_cell_block:
             if key:
@@ -273,7 +274,7 @@ class Importance(CellModifierInput):
                 if particle in printed_parts:
                     continue
                 printed_parts |= tree["classifier"].particles.particles
-                ret.append(tree.format())
+                ret.append(self._written_tree.get(particle, tree).format())
             return "\n".join(ret)
 
     @property
@@ -371,9 +372,15 @@ class Importance(CellModifierInput):
                         tree["classifier"].padding = padding
                     tree = self._real_tree[particle]
                     tree["classifier"].particles.particles = set(part_set)
-                    # an input whose values did not change is written as it was read
-                    if not self._has_same_values(tree["data"], data):
-                        tree["data"].update_with_new_values(data)
+                    # an input whose values did not change is written as it was read;
+                    # changed values are put into a copy, so that what is written only depends on the
+                    # values of the cells, and not on whether the input was formatted in between
+                    if self._has_same_values(tree["data"], data):
+                        self._written_tree[particle] = tree
+                    else:
+                        written = copy.deepcopy(tree)
+                        written["data"].update_with_new_values(data)
+                        self._written_tree[particle] = written
 
     @staticmethod
     def _has_same_values(list_node, new_values):
